@@ -367,10 +367,11 @@ theorem filler_empty_id (c : Cfg) (h : c.data = []) (s : Stream) : fill c s = so
 theorem filler_only_value_attrs_partial (c : Cfg) (s out : Stream) (hopt : optText false s = true)
     (h : fill c s = some out) : norm false out = norm false s := fill_norm c s out hopt h
 
-/-- … and where there is no textarea element, TEXT events are unchanged too: the only
-    text the filler ever changes is textarea content. -/
+/-- … and where no textarea element is named in the data, TEXT events are unchanged too: the
+    only text the filler ever changes is the content of textareas named in its data. -/
 theorem filler_no_text_change_partial (c : Cfg) (s out : Stream) (hopt : optText false s = true)
-    (hta : ∀ e ∈ s, isTextareaStart e = false) (h : fill c s = some out) :
+    (hta : ∀ tag a, Event.start tag a ∈ s → tag.loc = sTextarea → (aget a sName).bind c.lookup = none)
+    (h : fill c s = some out) :
     norm true out = norm true s := fill_norm_text c s out hopt hta h
 
 /-- The form filler maps a well-nested stream to a well-nested stream (same hypothesis). -/
